@@ -295,7 +295,12 @@ def build(m: M, name="M", strict=False, extra_ns=None, split=None, falsy=False) 
             if e.startswith("%"):
                 nm = e[1:]
                 fn = _mk(nm, flags_of("dec", nm))
-                ns[nm] = getattr(owner, group)(fn)
+                # "x#2": a second decorated function that has the same name as the first one
+                # (`@go.before` / `def _(self)` ... `@go.after` / `def _(self)`): it shadows the
+                # first in the class namespace, both stay registered
+                attr = nm.split("#")[0]
+                fn.__name__ = attr
+                ns[attr] = getattr(owner, group)(fn)
 
     for s in m.states:
         kw = {}
